@@ -245,6 +245,51 @@ Proof.
     unfold disk, pushed. destruct (aclosed (spec ml ops)); [apply prefix_refl|apply prefix_firstn].
 Qed.
 
+(* a life continued on the object returned by load() (any state between two commits of a proper
+   life with a file): it holds the prefix D that was on disk, closed; whatever proper operations
+   follow, length and every entry stay D's, add / open are refused, a second parameter store is
+   refused when parameters were stored, close changes nothing, get_opt_params returns the stored
+   parameters *)
+Theorem life_after_reload :
+  forall (fs0 : option (archive item par)) ml (ops1 ops2 : list op), 1 <= ml ->
+  proper ops1 = true -> proper ops2 = true -> opened (spec ml ops1) = true ->
+  let w1 := exec fs0 ml ops1 in
+  exists h' D, load_img (img_of (fst w1)) = Ok h' /\ prefix D (pushed ml ops1) /\
+    let w2 := fst (run (fst w1, h') ops2) in
+    len (snd w2) = length D /\
+    (forall i, i < length D -> getitem w2 (Z.of_nat i) = Ok (nth_error D i)) /\
+    (forall x, step w2 (Add x) = (w2, OErr ERuntime)) /\
+    step w2 Open = (w2, OErr ERuntime) /\
+    step w2 Close = (w2, ODone) /\
+    (asaved (spec ml ops1) <> None ->
+       (forall p, step w2 (SaveParams p) = (w2, OErr EFileExists)) /\
+       snd (step w2 GetParams) = snd (step w1 GetParams)).
+Proof.
+  intros fs0 ml ops1 ops2 Hml Hp1 Hp2 Ho w1.
+  destruct (@archive_of_this_life _ _ fs0 ml ops1 Hml Hp1 Ho) as (a & Ea & Hd). fold w1 in Ea.
+  pose proof (@exec_inv _ _ fs0 ml ops1 Hml Hp1) as HI1. fold w1 in HI1.
+  rewrite Ea. cbn [img_of]. eexists. exists (disk ml (spec ml ops1)).
+  split; [apply (load_repr Hd)|]. split.
+  { unfold disk, pushed. destruct (aclosed (spec ml ops1)); [apply prefix_refl|apply prefix_firstn]. }
+  pose proof (loaded_inv Hd) as HI0.
+  pose proof (@run_inv _ _ None 2 ops2 _ _ (le_S _ _ (le_n 1)) HI0 Hp2) as HI2.
+  set (A0 := mkA (disk ml (spec ml ops1)) (Some 0) (asaved (spec ml ops1)) true) in *.
+  assert (Hne : aopen A0 <> None) by discriminate.
+  destruct (@arun_closed _ _ 2 ops2 A0 eq_refl Hne) as (F1 & F2 & F3 & F4).
+  cbv zeta. set (w2 := fst (run _ ops2)) in *.
+  destruct (misuse_under_inv HI2) as (M1 & M2 & M3 & M4).
+  assert (Hop : opened (arun 2 A0 ops2) = true) by (unfold opened; rewrite F3; reflexivity).
+  split; [rewrite (inv_len HI2), F1; reflexivity|].
+  split.
+  { intros i Hi. change (nth_error (disk ml (spec ml ops1)) i) with (nth_error (aP A0) i). rewrite <- F1.
+    apply (getitem_opened (le_S _ _ (le_n 1)) HI2 Hop). rewrite F1. exact Hi. }
+  split; [exact (M1 F2)|]. split; [exact (M2 Hop)|]. split; [exact (M4 F2)|].
+  intros Hs. split.
+  - apply (M3 Hop). rewrite (F4 Hs). exact Hs.
+  - rewrite (params_out HI2), F3, (F4 Hs), (params_out HI1). cbn [A0 asaved].
+    unfold opened in Ho. destruct (aopen (spec ml ops1)); [reflexivity|discriminate].
+Qed.
+
 (* the process stops after ANY number of operations of a proper life (every archive update is one
    atomic commit, so these are the states between commits; an update interrupted half-way leaves a
    file that is not a zip archive = IGarbage; no file = INone).  Before open() the disk is as the
